@@ -1596,10 +1596,18 @@ fn close_attempt(world: &mut World, wg: &mut WorldGhost, ch: &mut ChanGhost, rng
         let why = if noncanonical { "noncanonical-or-malformed-tx" } else { best.and_then(|i| evals[i].first().copied()).unwrap_or("no-assignment") };
         r.count(&format!("antecedent.forbidden.{}", why.trim_start_matches("c07:")));
     }
+    // monitor-relevant abstraction of the situation: entry, direction, upfront fixed?, pair-of-commitments
+    // class, kind of holder destination, what the reference says (first failed clause), closed before, outcome
+    let verdict = if allowed {
+        "allowed"
+    } else if noncanonical {
+        "noncanonical"
+    } else {
+        best.and_then(|i| evals[i].first().copied()).unwrap_or("no-assignment")
+    };
     r.distinct_str(&format!(
-        "{}|{}|{:?}|{}|{}|{}|{}|{}|{}|{}|{}",
-        ep, ch.setup.is_outbound, ch.setup.commitment_type, ch.setup.holder_shutdown_script.is_some(), ch.state_class, lab.script_kind,
-        lab.value_class, lab.fee_class, lab.muts.first().copied().unwrap_or("-"), ch.closed, okk
+        "{}|{}|{}|{}|{}|{}|{}|{}",
+        ep, ch.setup.is_outbound, ch.setup.holder_shutdown_script.is_some(), ch.state_class, lab.script_kind, verdict, ch.closed, okk
     ));
     ch.log(json!({"op": entry, "request": request, "res": match &res { Ok(s) => format!("Ok({})", s), Err(Outcome::Refused(e)) => e.clone(), Err(Outcome::Panic(p)) => format!("panic: {}", p), Err(Outcome::Ok) => String::new() }}));
 
@@ -1795,7 +1803,7 @@ fn main() {
         FinishSpec {
             cli: &cli,
             level: "exploration",
-            rule: "channels (both directions, upfront shutdown script none/wallet/allowlisted/xpub-child, StaticRemoteKey and AnchorsZeroFeeHtlc, policies with epsilon 0..40000 and several fee ranges) advanced by real counter-signed holder commitments + revocations and signed counterparty commitments into pairs of current commitments (equal, within eps, apart <=2eps, apart >2eps, HTLCs in either/both, HTLC only in a not-yet-current one), allowlist edited by add/remove/set; closing requests through sign_mutual_close_tx and sign_mutual_close_tx_phase2. Oracle on Ok: exists assignment (explicit for phase 2) with no HTLC in either ghost-current commitment, 0 <= fee with rate in [min-1,max+1] on own weight bounds, non-funder value within eps of both ghost commitments, holder script wallet-derivable at path or allowlisted now and equal to upfront script, signature verifies under the funding key over the hand-built canonical closing tx; afterwards channel_closed in memory and in the persisted ChannelEntry, a new counter-signed holder commitment refused, also after restart. distinct = (entry, direction, commitment type, upfront fixed?, state class, holder script kind, value class, fee class, first mutation, already closed, outcome)",
+            rule: "channels (both directions, upfront shutdown script none/wallet/allowlisted/xpub-child, StaticRemoteKey and AnchorsZeroFeeHtlc, policies with epsilon 0..40000 and several fee ranges) advanced by real counter-signed holder commitments + revocations and signed counterparty commitments into pairs of current commitments (equal, within eps, apart <=2eps, apart >2eps, HTLCs in either/both, HTLC only in a not-yet-current one), allowlist edited by add/remove/set; closing requests through sign_mutual_close_tx and sign_mutual_close_tx_phase2. Oracle on Ok: exists assignment (explicit for phase 2) with no HTLC in either ghost-current commitment, 0 <= fee with rate in [min-1,max+1] on own weight bounds, non-funder value within eps of both ghost commitments, holder script wallet-derivable at path or allowlisted now and equal to upfront script, signature verifies under the funding key over the hand-built canonical closing tx; afterwards channel_closed in memory and in the persisted ChannelEntry, a new counter-signed holder commitment refused, also after restart. distinct = (entry point, direction, upfront fixed?, class of the pair of current commitments, holder destination kind, reference verdict = first failed clause or allowed, closed before?, outcome)",
             assumptions: vec![
                 "LDK chan_utils (commitment/closing tx construction for the workload and the cross-check), rust-bitcoin (sighash, bip32, addresses) and libsecp256k1 are trusted".into(),
                 "ghost-current commitments = last holder commitment that became current (activate/revoke Ok) and last counterparty commitment signed; a validated but not yet revoked-into holder commitment does not count".into(),
